@@ -3,6 +3,7 @@ package verifh
 import (
 	"errors"
 	"fmt"
+	"strings"
 	"testing"
 
 	otp "github.com/ja7ad/otp"
@@ -67,11 +68,44 @@ func checkC06(c c06Case) verdict {
 		return bad(true, labels, "ValidateOCRA rejected %q without an error", c.Code)
 	}
 	_ = errors.Is
+	// the string the library itself returned for a NEIGHBOURING input (counter+1, timestamp+1, first challenge byte
+	// flipped), submitted as returned, not as a copy: a returned code that still lives in a scratch buffer of the library
+	// is overwritten by the derivation inside the validation and then compared with itself
+	nb := otp.OCRAInput{Counter: bump(in.Counter, 7), Challenge: flip(in.Challenge, 0), Password: in.Password, SessionInfo: in.SessionInfo, Timestamp: bump(in.Timestamp, 7)}
+	if g2, e2 := otp.GenerateOCRA(c.Secret, suite, nb); e2 == nil {
+		keep := strings.Clone(g2)
+		ok2, err2 := otp.ValidateOCRA(c.Secret, g2, suite, in)
+		if g2 != keep {
+			return bad(true, labels, "the code %q returned for a neighbouring input changed to %q during a later validation", keep, g2)
+		}
+		if ok2 != (keep == g) || (ok2 && err2 != nil) || (!ok2 && err2 == nil) {
+			return bad(true, labels, "ValidateOCRA(the string returned for a neighbouring input, %q) = (%v, %v) but GenerateOCRA returns %q for this input", keep, ok2, err2, g)
+		}
+		labels = append(labels, "neighbour-as-returned")
+	}
 	return ok(nt || want && c.Origin != "generated", labels...)
 }
 
+func bump(b []byte, i int) []byte {
+	if i >= len(b) {
+		return b
+	}
+	x := append([]byte(nil), b...)
+	x[i]++
+	return x
+}
+
+func flip(b []byte, i int) []byte {
+	if i >= len(b) {
+		return b
+	}
+	x := append([]byte(nil), b...)
+	x[i] ^= 1
+	return x
+}
+
 var c06Main = newPart("C06", "main",
-	"rapid: C05 suites/secrets/inputs plus invalid suites (unusable configurations, zero RawSuite), inadmissible inputs (one selected field at a wrong length) and undecodable secrets; submitted strings: the generated code, single-character edits, truncations/extensions, the code for counter+1 / an edited challenge / timestamp+1 / a sibling suite (other digits or hash), the code of the same input in another ENCODING (decimal question vs. its RFC conversion, hex text vs. the bytes it spells), arbitrary strings; oracle: GenerateOCRA on the same arguments (equivalence: ok == (x == g) when generation succeeds, (false, error) when it fails; accept => nil error, reject => error); non-trivial = rejected string sharing >= 1 leading character with the generated code, or a generation-fails case",
+	"rapid: C05 suites/secrets/inputs plus invalid suites (unusable configurations, zero RawSuite), inadmissible inputs (one selected field at a wrong length) and undecodable secrets; submitted strings: the generated code, single-character edits, truncations/extensions, the code for counter+1 / an edited challenge / timestamp+1 / a sibling suite (other digits or hash), the code of the same input in another ENCODING (decimal question vs. its RFC conversion, hex text vs. the bytes it spells), arbitrary strings, and the string the library returned for a neighbouring input submitted as returned (not a copy); oracle: GenerateOCRA on the same arguments (equivalence: ok == (x == g) when generation succeeds, (false, error) when it fails; accept => nil error, reject => error); non-trivial = rejected string sharing >= 1 leading character with the generated code, or a generation-fails case",
 	checkC06)
 
 func genC06(t *rapid.T) c06Case {
